@@ -583,9 +583,6 @@ def _title_format(name: str) -> str:
     # serialised schemas parse back to the same class names.
     name, suffix = re.fullmatch(r"(.*?)((?:_\d+)*)", name, re.DOTALL).groups()
     title = _title_words(name)
-    if title and suffix:
-        return title + suffix
-    name += suffix
     if not title:
         # No usable ASCII letters: spell out the characters instead.
         title = _title_words(_parse_attribute_name(name))
@@ -593,7 +590,7 @@ def _title_format(name: str) -> str:
         title = "Untitled"
     if title in _RESERVED_CLASS_NAMES:
         title += "_"
-    return title
+    return title + suffix
 
 
 def _title_words(name: str) -> str:
